@@ -127,12 +127,24 @@ def cstr(s, model=None):
     if all(isinstance(c, int) for c in chs): return ''.join(chr(c) for c in chs)
     return ['symstr'] + [c if isinstance(c, int) else str(c) for c in chs]
 
-def cnum(x, model=None):
-    if is_sym(x) and model is not None: x = model.eval(x, model_completion=True).as_long()
+def cnum(x, model=None, signed=False):
+    if is_sym(x) and model is not None:
+        v = model.eval(x, model_completion=True)
+        x = v.as_signed_long() if signed else v.as_long()
     return str(x)
 
 def cflt(x, model=None):
     if isinstance(x, float): return {'f': fbits(x)}
+    if isinstance(x, SymReal) and model is not None:
+        from fractions import Fraction
+        v = model.eval(x.r, model_completion=True)
+        fr = Fraction(v.numerator_as_long(), v.denominator_as_long())
+        return {'f': fbits(float(fr))}
+    if is_sym(x) and model is not None and z3.is_fp(x):
+        import struct
+        v = model.eval(x, model_completion=True)
+        bv = model.eval(z3.fpToIEEEBV(v), model_completion=True).as_long()
+        return {'f': '%016x' % bv}
     return {'f': 'sym'}
 
 def canon_term(v, model=None):
@@ -156,7 +168,7 @@ def unbox(v):
 
 def canon_truth(v, model=None): return [v.variant] + [cflt(x, model) for x in v.f]
 def canon_budget(v, model=None): return [v.variant] + [cflt(x, model) for x in v.f]
-def canon_stamp(v, model=None): return [v.variant] + [cnum(x, model) for x in v.f]
+def canon_stamp(v, model=None): return [v.variant] + [cnum(x, model, True) for x in v.f]
 def canon_sentence(v, model=None):
     if v.variant in ('Judgement', 'Goal'):
         return [v.variant, canon_term(v.f[0], model), canon_truth(v.f[1], model), canon_stamp(v.f[2], model)]
